@@ -174,7 +174,7 @@ def run_case(case):
         p = model.parameters[nm]
         vals[nm] = float(np.nextafter(p.upper_bound, np.inf)) if rng.random() < 0.5 else p.lower_bound - float(rng.uniform(1e-9, 1.0))
     elif vk == "nan":
-        nm = uni[int(rng.integers(0, len(uni)))]; vals[nm] = float("nan")      # not a number: outside every support
+        nm = names[int(rng.integers(0, len(names)))]; vals[nm] = float("nan")      # not a number: outside every support (any prior class)
     elif vk == "neg_radius":
         rn = [nm for nm in names if nm.endswith("r") and isinstance(model.parameters[nm], Gaussian)][0]
         vals[rn] = -abs(vals[rn]) - 0.01
@@ -250,6 +250,8 @@ def run_case(case):
     def _lnp(p, v):
         if isinstance(p, Uniform):
             return -math.log(p.upper_bound - p.lower_bound) if p.lower_bound <= v <= p.upper_bound else -np.inf
+        if v != v:
+            return -np.inf       # not a number: outside the support of every prior, the Gaussian included
         return -0.5 * ((v - p.mu) / p.sd) ** 2 - math.log(p.sd * math.sqrt(2 * math.pi))
     lp_exp = sum(_lnp(p, v) for p, v in zip(plist, vec))
     if invalid:
